@@ -18,6 +18,18 @@ from ..provider.location import FieldLoc, TypeHintLoc
 from .provider_template import ConverterProvider
 
 
+class _NameRef:
+    """Object represented by the name of a variable, it is used to render a signature referring to constants"""
+
+    __slots__ = ("_name", )
+
+    def __init__(self, name: str):
+        self._name = name
+
+    def __repr__(self):
+        return self._name
+
+
 class BuiltinConverterProvider(ConverterProvider):
     def __init__(self, *, name_sanitizer: NameSanitizer = BuiltinNameSanitizer()):
         self._name_sanitizer = name_sanitizer
@@ -100,8 +112,22 @@ class BuiltinConverterProvider(ConverterProvider):
         update_wrapper_var = self._register_outer_mangled(namespace, "_update_wrapper", update_wrapper, closure_name)
         coercer_var = self._register_mangled(namespace, "coercer", coercer)
 
+        # `str(signature)` renders a default by `repr`, that is not an expression in general:
+        # each default is passed as a constant of the namespace and referred by name
         no_types_signature = signature.replace(
-            parameters=[param.replace(annotation=Signature.empty) for param in signature.parameters.values()],
+            parameters=[
+                param.replace(
+                    annotation=Signature.empty,
+                    default=(
+                        Signature.empty
+                        if param.default is Signature.empty else
+                        _NameRef(
+                            self._register_outer_mangled(namespace, f"_default_{idx}", param.default, closure_name),
+                        )
+                    ),
+                )
+                for idx, param in enumerate(signature.parameters.values())
+            ],
             return_annotation=Signature.empty,
         )
         parameters = tuple(signature.parameters.values())
